@@ -164,6 +164,7 @@ BREAKING = [
     dict(id="b252", file=P, old="class Temperature(Quantity):\n    \"\"\"Temperature: measure of thermal energy\"\"\"\n", new="class Temperature(Quantity):\n    \"\"\"Temperature: measure of thermal energy\"\"\"\n\n    def __lt__(self, other):\n        return self.amount < other.amount\n", props=["C04"]),
     dict(id="b260", multi=[(Q, "            else:\n                return factor * self.amount", "            else:\n                key = (self.unit, unit)\n                try:\n                    return _EQUIV_MEMO[key]\n                except KeyError:\n                    res = _EQUIV_MEMO[key] = factor * self.amount\n                    return res"),
                           (Q, "_UNIT_OP_CACHE: UnitOpCacheT = {}\n", "_UNIT_OP_CACHE: UnitOpCacheT = {}\n_EQUIV_MEMO: Dict[Any, Any] = {}\n")], props=["C01"]),
+    dict(id="b261", file=Q, old="                except (TypeError, ValueError, ZeroDivisionError):\n                    raise QuantityError(f\"Can't convert", new="                except (TypeError, ValueError):\n                    raise QuantityError(f\"Can't convert", props=["C18", "C15"]),
     dict(id="b212", file=M, old="        if cls._converters[-1] is conv:\n            cls._converters.pop()", new="        if cls._converters[-1] is conv:\n            del cls._converters[0]", props=["C12"]),
 ]
 BREAKING = [b for b in BREAKING if b["props"]]
